@@ -546,3 +546,90 @@ def drv_reduce_dims(doc, args, inst):
 
 
 DRIVERS.update({'ctor_list': drv_ctor_list, 'ctor_none': drv_ctor_none, 'set_core': drv_set_core, 'reduce_dims': drv_reduce_dims})
+
+
+def drv_misuse(doc, args, inst):
+    """each case must raise on the real code; returns a message when it returns normally"""
+    import torchtt as tt
+    case = args['case']
+    if case.startswith('cat_size') and 'a' in inst and 'b' in inst:
+        return drv_cat(doc, {'tensors': ['a', 'b'], 'dim': 1}, inst)
+    r = lambda N, R=None: tt.randn(N, R or ([1] + [2] * (len(N) - 1) + [1]))
+    calls = {
+        't_on_tensor': lambda: r([2, 3]).t(),
+        'sum_out_of_range': lambda: r([2, 3, 4]).sum(7),
+        'sum_negative': lambda: r([2, 3, 4]).sum([-5]),
+        'sum_bad_type': lambda: r([2, 3, 4]).sum('a'),
+        'mprod_on_ttm': lambda: r([(2, 3), (2, 2)]).mprod(tn.randn(4, 3), 0),
+        'mprod_size': lambda: r([2, 3]).mprod(tn.randn(4, 5), 1),
+        'mprod_bad_args': lambda: r([2, 3]).mprod([tn.randn(2, 2)], 0),
+        'mprod_mode_range': lambda: r([2, 3]).mprod(tn.randn(2, 2), 5),
+        'qtt_not_list': lambda: r([2, 2]).qtt_to_tens((4,)),
+        'qtt_shape': lambda: r([2, 2]).qtt_to_tens([3]),
+        'getitem_too_few': lambda: r([2, 3, 4])[0, :],
+        'getitem_too_many': lambda: r([2, 3])[0, 0, 0],
+        'getitem_int_range': lambda: r([2, 3])[5, 0],
+        'getitem_float': lambda: r([2, 3])[1.5, 0],
+        'getitem_str': lambda: r([2, 3])['a'],
+        'getitem_two_ellipsis': lambda: r([2, 3, 4])[..., 0, ...],
+        'getitem_int_on_order2': lambda: r([2, 3])[0],
+        'getitem_slice_on_order2': lambda: r([2, 3])[0:1],
+        'getitem_ttm_ellipsis': lambda: r([(2, 3), (2, 2)])[..., 0],
+        'getitem_ttm_mixed': lambda: r([(2, 3)])[0, :],
+        'set_core_index': lambda: r([2, 3]).set_core(2, tn.randn(1, 2, 1)),
+        'set_core_rank': lambda: r([2, 3]).set_core(0, tn.randn(1, 2, 5)),
+        'fast_matvec_not_tt': lambda: r([(2, 2), (3, 3)]).fast_matvec(3),
+        'fast_matvec_kinds': lambda: r([(2, 2), (3, 3)]).fast_matvec(r([(2, 2), (3, 3)])),
+        'to_qtt_not_power': lambda: r([(6, 6), (4, 4)]).to_qtt(),
+        'to_qtt_ttm_rect': lambda: r([(2, 4)]).to_qtt(),
+        'ctor_bad_source': lambda: TT(3.5),
+        'kron_kinds': lambda: tt.kron(r([2, 3]), r([(2, 2)])),
+        'kron_bad': lambda: tt.kron(r([2, 3]), 3),
+        'dot_not_tt': lambda: tt.dot(r([2, 3]), 3.0),
+        'dot_ttm': lambda: tt.dot(r([(2, 2), (3, 3)]), r([(2, 2), (3, 3)])),
+        'dot_size': lambda: tt.dot(r([2, 3]), r([2, 4])),
+        'dot_order': lambda: tt.dot(r([2, 3]), r([2, 3, 4])),
+        'dot_axis_order': lambda: tt.dot(r([2, 3]), r([2, 3, 4]), [0]),
+        'dot_axis_size': lambda: tt.dot(r([2, 3, 4]), r([5]), [1]),
+        'bilinear_types': lambda: tt.bilinear_form(3, r([(2, 2), (3, 3)]), r([2, 3])),
+        'bilinear_kinds': lambda: tt.bilinear_form(r([2, 3]), r([2, 3]), r([2, 3])),
+        'bilinear_shape': lambda: tt.bilinear_form(r([2, 4]), r([(2, 2), (3, 3)]), r([2, 3])),
+        'cat_ttm': lambda: tt.cat((r([(2, 2), (3, 3)]), r([(2, 2), (3, 3)])), 0),
+        'cat_size_before': lambda: tt.cat((r([2, 3, 4]), r([5, 3, 4])), 1),
+        'cat_size_after': lambda: tt.cat((r([2, 3, 4]), r([2, 3, 5])), 1),
+        'cat_size_both': lambda: tt.cat((r([2, 3, 4]), r([3, 3, 5])), 1),
+        'cat_order': lambda: tt.cat((r([2, 3]), r([2, 3, 4])), 1),
+        'pad_too_many': lambda: tt.pad(r([3]), ((1, 1), (1, 1))),
+        'diag_not_tt': lambda: tt.diag(tn.randn(3, 3)),
+        'permute_not_tt': lambda: tt.permute(tn.randn(3, 3), [1, 0]),
+        'permute_len': lambda: tt.permute(r([2, 3, 4]), [1, 0]),
+        'permute_dup': lambda: tt.permute(r([2, 3, 4]), [1, 1, 0]),
+        'permute_range': lambda: tt.permute(r([2, 3, 4]), [1, 2, 3]),
+        'reshape_count': lambda: tt.reshape(r([2, 3]), [5]),
+        'save_not_tt': lambda: tt.save(tn.randn(3), '/var/tmp/_ttvc_should_not_exist.TT'),
+        'random_bad_R': lambda: tt.random([2, 3], [2, 2, 1]),
+        'random_len_R': lambda: tt.random([2, 3], [1, 2, 2, 1]),
+        'zeros_not_list': lambda: tt.zeros((2, 3)),
+        'ones_not_list': lambda: tt.ones((2, 3)),
+        'amen_mv_types': lambda: tt.amen_mv(r([(2, 2), (3, 3)]), 3),
+        'amen_mv_kinds': lambda: tt.amen_mv(r([(2, 2), (3, 3)]), r([(2, 2), (3, 3)])),
+        'amen_mv_shape': lambda: tt.amen_mv(r([(2, 2), (3, 3)]), r([2, 4])),
+        'amen_solve_types': lambda: tt.solvers.amen_solve(r([(2, 2), (3, 3)]), 3),
+        'amen_solve_kinds': lambda: tt.solvers.amen_solve(r([2, 3]), r([2, 3])),
+        'amen_solve_square': lambda: tt.solvers.amen_solve(r([(2, 3), (3, 3)]), r([3, 3])),
+        'amen_solve_shape': lambda: tt.solvers.amen_solve(r([(2, 2), (3, 3)]), r([2, 4])),
+        'riemann_kinds': lambda: tt.manifold.riemannian_projection(r([2, 3]), r([(2, 2), (3, 3)])),
+    }
+    if case not in calls:
+        return []
+    try:
+        res = calls[case]()
+    except Exception as e:
+        ob = doc.get('obligation', '')
+        if 'documented_type' in ob and type(e).__name__ not in ('ShapeMismatch', 'RankMismatch', 'IncompatibleTypes', 'InvalidArguments', 'NotImplementedError'):
+            return ['%s raises %s (%s), not one of the documented library exceptions' % (case, type(e).__name__, str(e)[:100])]
+        return []
+    return ['%s: no exception, returned %s' % (case, descr(res) if res is not None else None)]
+
+
+DRIVERS.update({'misuse': drv_misuse})
